@@ -42,7 +42,7 @@ func VerifC10Consistency() {
 	svcs := doc["services"].(map[string]any)
 	a := svcs["a"].(map[string]any)
 	bad := false
-	scen := vrtChoice("scenario", 16)
+	scen := vrtChoice("scenario", 17)
 	switch scen {
 	case 0: // untouched
 	case 1: // image or build
@@ -177,10 +177,27 @@ func VerifC10Consistency() {
 			return
 		}
 		bad = (!ext && n == 0) || n > 1
+	case 16: // a plain namespace value next to a `service:` reference in another namespace attribute
+		first := []string{"", "network_mode", "ipc", "pid"}[vrtChoice("plainNamespace", 4)]
+		second := []string{"ipc", "pid", "uts"}[vrtChoice("serviceNamespace", 3)]
+		if first == second {
+			return
+		}
+		if first != "" {
+			a[first] = "host"
+		}
+		k := vrtChoice("target", 2)
+		a[second] = "service:" + []string{"b", "zz"}[k]
+		bad = k == 1
 	case 13: // external volume with creation parameters
 		ext := vrtChoice("external", 2) == 1
 		drv := vrtChoice("driver", 2) == 1
 		o := map[string]any{}
+		if vrtChoice("extension", 2) == 1 {
+			o["x-note"] = "n"
+			o["a-label-like-key"] = nil
+			delete(o, "a-label-like-key")
+		}
 		if ext {
 			o["external"] = true
 		}
@@ -222,7 +239,7 @@ func VerifC10Consistency() {
 	}
 	// the verdict must not depend on map iteration order inside the library: explore it reversed too
 	// (observations are not recorded under a perturbed order: natively the order is random)
-	order := vrtChoice("maporder", 2)
+	order := []int{0, 1, 3, 4}[vrtChoice("maporder", 4)]
 	vrtMapOrder(order)
 	p, err := tcLoadProject(nil, nil, doc)
 	vrtMapOrder(0)
